@@ -399,9 +399,15 @@ def _attrs(run, P, C):
         stmt_vars = set()
         if f is not call:
             stmt_vars.add(f.params[0])
+        tables = {"id_to_stmt"}
+        for ff in [f] + ([f.parent] if f.parent is not None else []):
+            for s in func_body_stmts(ff.node):
+                if isinstance(s, ast.Assign) and isinstance(s.value, ast.Attribute) \
+                        and s.value.attr == "id_to_stmt":
+                    tables |= {t.id for t in s.targets if isinstance(t, ast.Name)}
         for s in func_body_stmts(f.node):
             if isinstance(s, ast.Assign) and isinstance(s.value, ast.Subscript) \
-                    and dotted(s.value.value) == "id_to_stmt":
+                    and dotted(s.value.value) in tables:
                 for t in s.targets:
                     if isinstance(t, ast.Name):
                         stmt_vars.add(t.id)
